@@ -98,10 +98,15 @@ def obs_events(chk):
     rng = np.random.RandomState(1600 + chk.seed)
     batch = obs.Batch('ObsC16')
     reps = 30 if chk.tier == 'quick' else 300
-    for rep in range(reps):
-        N = int(rng.choice([8, 16, 33, 64, 128]))
+    sizes = [8, 16, 33, 64, 127, 128]
+    grid = [(N, c) for N in sizes for c in (False, True)]
+    for rep in range(reps + len(grid)):
+        if rep < len(grid):
+            N, cplx = grid[rep]
+        else:
+            N = int(rng.choice(sizes))
+            cplx = bool(rng.randint(2))
         m = int(rng.randint(2, min(N // 2, 16) + 1))
-        cplx = bool(rng.randint(2))
         t = np.arange(N)
         x = rng.randn(N) + np.cos(0.8 * t)
         if cplx:
